@@ -166,7 +166,13 @@ def run(ctx):
         trs = [x for x, _ in tables[z][1]]
         return [x for x in trs if x < us_of(dt.datetime(2012, 6, 1, tzinfo=dt.timezone.utc)) or x > us_of(dt.datetime(2021, 1, 1, tzinfo=dt.timezone.utc))]
 
-    pool_tr = sorted({x for z in zones for x in interesting(z)})
+    # ... and, for every transition, the instants whose UTC clock reading equals the zone's local clock reading at the
+    # transition (a naive-UTC value re-read as local time would land in the skipped / repeated hour there)
+    def shifted(z):
+        zi = zoneinfo.ZoneInfo(z)
+        return sorted({x + off_at(zi, x - 1) for x in interesting(z)} | {x + off_at(zi, x + 1) for x in interesting(z)})
+
+    pool_tr = sorted({x for z in zones for x in interesting(z)} | {x for z in zones for x in shifted(z)})
     anchors = pool_tr + [us_of(dt.datetime(2021, 7, 1, 12, tzinfo=dt.timezone.utc)), us_of(dt.datetime(2021, 12, 31, 23, 59, 59, tzinfo=dt.timezone.utc))]
 
     def near(x):
@@ -225,8 +231,22 @@ def run(ctx):
         # two stored values inside the repeated hour / around the transition
         tuples.append({"fresh": None, "s": x - 3 * HOUR, "s2": x - 3 * HOUR, "a": x - 2 * MIN15, "b": x + MIN15})
         tuples.append({"fresh": x + MIN15, "s": x - 3 * HOUR, "s2": x - 3 * HOUR, "a": x - 2 * MIN15, "b": x + 2 * MIN15})
+    # values whose UTC clock readings, re-read as local time, fall into / just after the hour the zone skips in spring:
+    # the newer one must still count as newer (one tuple per zone, always kept)
+    must = []
+    for z in zones:
+        zi = zoneinfo.ZoneInfo(z)
+        prev = tables[z][0]
+        for x, o in tables[z][1]:
+            if o > prev and x in interesting(z):
+                a0 = x + prev             # the local wall reading of the transition, taken as a UTC instant
+                must.append({"fresh": None, "s": a0 + 70 * 60 * 10 ** 6, "s2": a0 - 3 * HOUR, "a": a0 + 30 * 60 * 10 ** 6, "b": a0 + 40 * 60 * 10 ** 6})
+                break
+            prev = o
     if ctx.quick:
-        tuples = tuples[:1] + rng.sample(tuples[1:], min(len(tuples) - 1, 14))
+        tuples = tuples[:1] + must + rng.sample(tuples[1:], min(len(tuples) - 1, 14))
+    else:
+        tuples = tuples + must
     for _ in range(ctx.n(30, 500)):
         x = rng.choice(anchors)
         t = {k: near(x) for k in ("fresh", "s", "s2", "a", "b")}
